@@ -139,11 +139,12 @@ mutual
     | array (vs : List Term) (alias : Option Str)
     | case (whens : List (Term × Term)) (els : Option Term) (alias : Option Str)
     /-- every `Function` subclass: `special` = text placed after the arguments (`AS type`, `USING x`,
-        `IGNORE NULLS`), `extractFrom` = EXTRACT's source, `filters` = `Some` iff `_include_filter`,
-        `over` = `Some (partition, orderbys)` iff `_include_over`, `plainName` = CURRENT_TIMESTAMP style -/
+        `IGNORE NULLS`), `extractFrom` = EXTRACT's source, `filter` = `Some (Criterion.all(_filters))` iff
+        `_include_filter`, `over` = `_include_over` with its PARTITION BY / ORDER BY terms,
+        `noParens` = CURRENT_TIMESTAMP style -/
     | func (name : Str) (schema : Option (List Str)) (args : List Term) (distinct : Bool)
-        (special : Option Str) (extractFrom : Option Term) (filters : Option (List Term))
-        (over : Option (List Term × List (Term × Option Ord))) (frame : Option Frame)
+        (special : Option Str) (extractFrom : Option Term) (filter : Option Term)
+        (over : Bool) (partition : List Term) (overOrder : List (Term × Option Ord)) (frame : Option Frame)
         (noParens : Bool) (alias : Option Str)
     | param (text : Str)                                 -- explicit Parameter placeholder
     | interval (iv : IntervalArgs)
@@ -158,7 +159,7 @@ mutual
 
   /-- a `Selectable` used as a row source -/
   inductive Src where
-    | table (t : TRef) (temporal : Option (Bool × Term))   -- (isPortion, criterion)
+    | table (t : TRef) (portion : Bool) (temporal : Option Term)   -- FOR / FOR PORTION OF criterion
     | query (q : Query)
     | setop (s : SetOp)
     | aliased (name : Str) (q : Option Src)                -- AliasedQuery
